@@ -634,7 +634,11 @@ func (e *engineA) fault(act string) {
 		case 1:
 			timeout = time.Duration(20+e.rng.Intn(20)) * e.hb()
 		}
-		go e.cl.transfer(l, target, timeout)
+		if e.rng.Intn(4) == 0 {
+			go e.cl.transferRemote(l, target, timeout)
+		} else {
+			go e.cl.transfer(l, target, timeout)
+		}
 		if e.rng.Intn(4) == 0 {
 			// a second request while the first is in progress
 			ids := e.cl.nodeIDs()
@@ -687,7 +691,11 @@ func (e *engineA) fault(act string) {
 		if e.rng.Intn(5) == 0 {
 			thr = uint64(10 + e.rng.Intn(200))
 		}
-		go e.cl.takeSnapshot(n, thr)
+		if e.rng.Intn(4) == 0 {
+			go e.cl.takeSnapshotRemote(n, thr)
+		} else {
+			go e.cl.takeSnapshot(n, thr)
+		}
 		if e.rng.Intn(5) == 0 {
 			go e.cl.takeSnapshot(n, 0)
 		}
